@@ -161,6 +161,41 @@ func init() {
 			ck.RequiredProbes = []string{"timeout_refused", "tmo_success", "localhost_timeout_with_future_proof_height"}
 		})
 
+	coreCheck("C05",
+		"for valid pending receive messages (v1 ordered/unordered, v2, alias, localhost) a malicious relayer mutates one or two fields chosen by reflection over the whole message (packet data, timeouts, sequence, source/destination identifiers, payload fields and list structure, proof bytes at several offsets, proof height, signer) and delivers it alone in a block, at every packet/channel/client state the run reaches (fresh, received, acked, timed out, closed channel, expired client); honest receives are checked against ground truth: the source really stores the commitment of exactly these fields at the proven version, and the destination's (height,time) is before the timeout. Oracle: a mutated message never succeeds, never reaches the application and leaves an empty store diff. Non-trivial case = distinct (route kind, mutated field path, mutation, packet state, outcome)",
+		[]string{"mut:"}, 96, 1600,
+		func(o *CoreOptions, r *rand.Rand, tier string) {
+			o.Kinds = subset(r, allKinds)
+			o.WMut = 40
+			o.WDup, o.WEarlyTmo = 5, 4
+			o.WClose = 2
+			if r.Intn(3) == 0 {
+				o.TrustingSecs = 3 * 3600
+			}
+		},
+		func(ck *sim.Check) {
+			ck.Level = "fault_enumeration"
+			ck.RequiredFaults = []string{"relay.mutate"}
+			ck.RequiredProbes = []string{"mutated_message_failed"}
+		})
+
+	coreCheck("C06",
+		"as C05 for acknowledgement messages (v1 ack bytes; v2 list of app acknowledgements incl. order and length; packet fields; sequence; proof; proof height), plus acknowledgements forged for packets the destination never acknowledged; honest acks are checked against ground truth: the destination really stores the commitment of exactly this acknowledgement at the proven version, and the bytes handed to the sending application equal what the destination application produced. Non-trivial case = distinct (route kind, mutated field path, mutation, packet state, outcome)",
+		[]string{"mut:"}, 96, 1600,
+		func(o *CoreOptions, r *rand.Rand, tier string) {
+			o.Kinds = subset(r, allKinds)
+			o.WMut = 40
+			o.WDup, o.WEarlyTmo = 5, 2
+			o.TightTmo = 10
+			o.Payloads = 2
+			o.Behaviours = []string{"ok", "ok", "fail", "w1ok"}
+		},
+		func(ck *sim.Check) {
+			ck.Level = "fault_enumeration"
+			ck.RequiredFaults = []string{"relay.mutate"}
+			ck.RequiredProbes = []string{"mutated_message_failed"}
+		})
+
 	coreCheck("C08",
 		"worlds interleaving v1 sends, v2 sends on the alias of the same channel and v2 sends on plain clients (several users, same block), with timeouts around every guard boundary (already passed on the client, == block time, +-1 s, now+24h, +24h+1s) and clients that expire between sends. Oracle: successful sends on one source id return 1,2,3,... (counter shared by v1 and alias); exactly one new commitment key per successful send; the specification's guard predicate evaluated on the real pre-state agrees with accept/refuse. Non-trivial case = distinct (route kind, refusal reason)",
 		[]string{"send-refused:"}, 96, 1600,
@@ -215,6 +250,39 @@ func init() {
 		},
 		func(ck *sim.Check) {
 			ck.RequiredProbes = []string{"async_ack_written", "async_ack_write_refused", "async_ack_repeated_write_attempt", "async_ack_premature_write_attempt"}
+		})
+
+	coreCheck("C19",
+		"worlds whose connection has a delay period and whose chains have a MaxExpectedTimePerBlock parameter drawn from {(10s,30s),(35s,7s),(61s,30s),(45s,45s),(2^53+1 ns, 2^53 ns)}; the relayer updates the client and then submits receive/ack/timeout exactly at processed-time + delay -1ns/+0/+1ns and processed-height + ceil(delay/perBlock) -1/+0/+1 blocks (simulated time makes a 104-day delay cost microseconds). Oracle: exact integer model over the processed time/height read from the client's stored metadata: accepted => both delays passed; refused with the delay error => not both passed. Non-trivial case = distinct (delay, perBlock, side of the time boundary, side of the height boundary, outcome)",
+		[]string{"delay:"}, 96, 1200,
+		func(o *CoreOptions, r *rand.Rand, tier string) {
+			o.Kinds = subset(r, []string{"v1u", "v1o"})
+			type dm struct{ d, m uint64 }
+			sets := []dm{{10e9, 30e9}, {35e9, 7e9}, {61e9, 30e9}, {45e9, 45e9}, {1<<53 + 1, 1 << 53}}
+			s := sets[r.Intn(len(sets))]
+			o.Delay, o.MEPT = s.d, s.m
+			o.WDelayProbe = 30
+			o.WDup, o.WEarlyTmo, o.WClose, o.WRestart = 3, 2, 0, 0
+			o.TightTmo = 0
+			o.FarTimeouts = true
+			o.TrustingSecs = 400 * 86400
+			o.UnbondSecs = 500 * 86400
+			o.Behaviours = []string{"ok", "ok", "fail"}
+		},
+		func(ck *sim.Check) {
+			ck.RequiredProbes = []string{"delay_boundary_probe", "refused_for_delay_period", "accepted_after_delay_period"}
+			ck.Assumptions = append(ck.Assumptions, "MaxExpectedTimePerBlock == 0 is not reachable on a running chain (parameter validation refuses it), so the 'zero when the parameter is zero' clause is not exercised", "the all-64-bit-pairs clause is sampled at the listed pairs only, including one pair beyond 2^53 where float64 arithmetic is inexact")
+		})
+
+	coreCheck("C27",
+		"worlds with localhost loopback channels (ordered and unordered) carrying real packet traffic end to end, plus tendermint routes that keep changing the IBC store; at seeded points the run calls VerifyMembership / VerifyNonMembership for client 09-localhost through the client router on a throw-away branch of the latest state with keys sampled from the store census (present), perturbed or truncated keys, wrong and extended values and wrong proofs, and compares each verdict with the census; client operations addressed to 09-localhost (create, update, upgrade, recover as subject and as substitute) must be refused without state change. Non-trivial case = distinct (input shape, membership verdict, non-membership verdict) and refused operation kinds",
+		[]string{"lhv:", "lhop:"}, 96, 1200,
+		func(o *CoreOptions, r *rand.Rand, tier string) {
+			o.Kinds = subset(r, allKinds, "loc")
+			o.WLocalVerify = 14
+		},
+		func(ck *sim.Check) {
+			ck.RequiredProbes = []string{"localhost_verify_compared_with_store", "localhost_client_operation_refused", "send_ok_loc"}
 		})
 
 	coreCheck("C14",
